@@ -23,8 +23,8 @@ MANIFEST = {
             "leaves exactly the compiled chains), sync_sets_exact (createIPSet's diff update is exact from every non-conflicting "
             "prior content, other sets untouched), sync_exact_partial_fresh (a whole Run on a node with arbitrary foreign chains/"
             "rules/sets but no GLX-owned state is accepted, leaves exactly compile/pod_chain of the cluster and all foreign state as "
-            "it was, for every cluster on which the name hash does not collide and no rule lists one address with both nomatch "
-            "flags). The FULL sync_exact / sync_idem are refuted by five vm_compute witnesses on the faithful model (K5, K5b, K5c, "
+            "it was, for every cluster on whose policy keys and local pod keys the name hash does not collide and in which no rule lists "
+            "one address with both nomatch flags). The FULL sync_exact / sync_idem are refuted by five vm_compute witnesses on the faithful model (K5, K5b, K5c, "
             "K5d; prior states produced by galaxy's own Run), each reproduced on the real code (corpus/C15.json). The model is tied to "
             "the working tree by driving the REAL PolicyManager (hook NewForVerif, strict iptables/ipset fakes) through ~154 (quick) "
             "restart/event histories and comparing the dump after EVERY step with the model's kernel; exactness, foreign-untouched, "
